@@ -92,13 +92,26 @@ func DistanceLineToLine(line1Start, line1End, line2Start, line2End geom.Coord) f
 	/**
 	 * Algorithm derived from http://softsurfer.com/Archive/algorithm_0106/algorithm_0106.htm
 	 */
-	a := VectorDot(line1Start, line1End, line1Start, line1End)
 	b := VectorDot(line1Start, line1End, line2Start, line2End)
 	c := VectorDot(line2Start, line2End, line2Start, line2End)
 	d := VectorDot(line1Start, line1End, line2Start, line1Start)
 	e := VectorDot(line2Start, line2End, line2Start, line1Start)
 
-	denom := a*c - b*b
+	/**
+	 * The closest-approach parameters of the two infinite lines are computed
+	 * from cross products: with u = line1End-line1Start, v = line2End-line2Start,
+	 * r = line2Start-line1Start and n = u x v (zero exactly when the lines are
+	 * parallel),
+	 *   s = ((r x v) . n) / |n|^2,   t = ((r x u) . n) / |n|^2.
+	 * The algebraically equal form with denom = a*c - b*b cancels
+	 * catastrophically for nearly parallel segments.
+	 */
+	ux, uy, uz := line1End[0]-line1Start[0], line1End[1]-line1Start[1], line1End[2]-line1Start[2]
+	vx, vy, vz := line2End[0]-line2Start[0], line2End[1]-line2Start[1], line2End[2]-line2Start[2]
+	rx, ry, rz := line2Start[0]-line1Start[0], line2Start[1]-line1Start[1], line2Start[2]-line1Start[2]
+	nx, ny, nz := uy*vz-uz*vy, uz*vx-ux*vz, ux*vy-uy*vx
+
+	denom := nx*nx + ny*ny + nz*nz
 	if math.IsNaN(denom) {
 		panic("Ordinates must not be NaN")
 	}
@@ -117,8 +130,8 @@ func DistanceLineToLine(line1Start, line1End, line2Start, line2End geom.Coord) f
 			t = e / c
 		}
 	} else {
-		s = (b*e - c*d) / denom
-		t = (a*e - b*d) / denom
+		s = ((ry*vz-rz*vy)*nx + (rz*vx-rx*vz)*ny + (rx*vy-ry*vx)*nz) / denom
+		t = ((ry*uz-rz*uy)*nx + (rz*ux-rx*uz)*ny + (rx*uy-ry*ux)*nz) / denom
 	}
 	if s < 0 || s > 1 || t < 0 || t > 1 {
 		// The closest points are not both interior to their segments, so the
